@@ -205,11 +205,17 @@ def _hessian(repo, res, bl):
         def integ(func, jac, x0, t0, t, **kw):
             seen["integ"] = (func, jac, x0, t0, list(t), kw)
             return X.copy() if not kw.get("full_output") else (X.copy(), {})
+        def set_param(me_, th):
+            me_.attrs["_theta"] = ("installed", th)        # what _setParam does: the loss object's parameter binding now comes from th
+
+        def set_model_params(o, v):
+            seen["model_params"] = v
+            seen["model_params_before_integration"] = "integ" not in seen
         summ.update({"ode_utils.integrateFuncJac": integ, "ode_utils.vecToMatFF": vec_to_mat_ff,
                      "Kernel.diff_loss": lambda k_, yhat, *a, **kw: (seen.__setitem__("dl_arg", yhat), D)[1],
                      "Kernel.residual": lambda k_, yhat, *a, **kw: Tok("resid"),
-                     "Loss._setParam": lambda me_, th: None,
-                     "set:Model.parameters": lambda o, v: None})
+                     "Loss._setParam": set_param,
+                     "set:Model.parameters": set_model_params})
         ab = Abs({}, types, summ, me)
         try:
             kind, out = ab.run_function(f.node, {"theta": Tok("theta"), "full_output": False, "method": None})
@@ -244,6 +250,11 @@ def _hessian(repo, res, bl):
             and all(x == y for x, y in zip(ig[2].flat[:nS], me.attrs["_x0"].flat)) and all(x == A.Rat.const(0) for x in ig[2].flat[nS:])
         res.check(ok, "R-SIGN", f, "integration" + ("" if tp is None else "(subset)"), "integrates the forward-forward system from [x0; zeros] over (t[0], t[1:])",
                   "hessian integrates %s" % (ig[:2] + (ig[3], ig[4]) if ig else None,), node=f.node)
+        # the Hessian is the one *at theta*: the theta handed in is bound and installed in the model before the integration
+        ok = seen.get("model_params") == ("installed", Tok("theta")) and seen.get("model_params_before_integration") is True
+        res.check(ok, "R-SIGN", f, "at-theta" + ("" if tp is None else "(subset)"), "the supplied theta is bound and installed in the model before integrating",
+                  "hessian(theta) integrates with the model parameters %r (installed before the integration: %s): the result is not the Hessian at theta"
+                  % (seen.get("model_params"), seen.get("model_params_before_integration")), node=f.node)
     if und:
         res.undecided("R-SIGN", f, "abstract-execution", "outside the modelled subset: %s" % und)
         return
